@@ -53,6 +53,7 @@ def run(tier):
         kn["ops"] = 6
         kn["inst_copy"] = (i % 3 == 1)
         kn["tbl_nozero"] = (i % 2 == 1)
+        kn["fx_overwrite"] = (i % 3 != 1)
         scen.append({"shape": kn, "nproofs": 1, "hash": "blake2b", "seed": rng.randrange(1 << 30),
                      "max_faults": maxf})
     chunks = [scen[i::vlib.NCPU] for i in range(vlib.NCPU)]
